@@ -2,6 +2,7 @@ import Driver.Pure
 import Driver.Ctl
 import Driver.ClientMon
 import Driver.E2e
+import Driver.App
 /-
   ftpdriver: one line in, one line out.
 
@@ -19,7 +20,7 @@ def handleLine (line : String) : String :=
   | [lhs, impl] =>
     match lhs.splitOn " " with
     | op :: args =>
-      match (if op = "client" then clientOp args impl else if op = "e2e" then e2eOp args impl else (pureOp op args impl <|> ctlOp op args impl)) with
+      match (if op = "client" then clientOp args impl else if op = "e2e" then e2eOp args impl else if op = "app" then appOp args impl else (pureOp op args impl <|> ctlOp op args impl)) with
       | some v =>
         let tags := ",".intercalate v.tags
         match v.viol with
